@@ -304,3 +304,34 @@ def variant_magics(ctx, enum_path):
             if d.name == "magic":
                 out[v["name"]] = d.text.replace(" ", "")
     return out
+
+
+def w_codec(ctx, type_paths, pairs, rule="CODEC"):
+    """Field converters: every field of the given types that is read through `map = f` and written through `map = g`
+    uses a pair (f, g) of the reference table (name of the function, generic arguments ignored).  The table lists the
+    inverse pairs confirmed by reading; a field switched to another converter on one side only, or to a converter
+    that is not in the table, is reported."""
+    wm = model(ctx)
+    n = 0
+
+    def fn_name(txt):
+        t = txt.replace(" ", "")
+        m = re.match(r"^([A-Za-z_][A-Za-z0-9_:]*)(::<.*>)?$", t)
+        return m.group(1).split("::")[-1] if m else None
+
+    for path in type_paths:
+        it = wm.items.by_path.get(path)
+        if it is None:
+            ctx.fail_closed(rule, f"type {path} not found")
+            continue
+        fl = list(it["fields"]) if it["kind"] == "struct" else [f for v in it["variants"] for f in v["fields"]]
+        for f in fl:
+            ds = W.directives(f["attrs"])
+            r = [d.text for d in ds if d.name in ("map", "try_map") and "r" in d.side and "w" not in d.side]
+            w = [d.text for d in ds if d.name in ("map", "try_map") and "w" in d.side and "r" not in d.side]
+            if not r and not w:
+                continue
+            n += 1
+            got = (fn_name(r[0]) if r else None, fn_name(w[0]) if w else None)
+            ctx.ob(rule, f"{it['name']}.{f['name']}", got in pairs, f"{it['name']}.{f['name']} is read through {r[0] if r else None} and written through {w[0] if w else None}; reference converter pairs: {sorted(pairs)}", it["file"], f["line"], sample=(f["name"] == "comment"))
+    return n
